@@ -46,22 +46,29 @@ TECHNIQUE = "explicit-state BFS over Vector operation histories on the real obje
 CLAIM = (
     "Every history of Vector operations (cell / slice / list / Vector-valued assignment through __setitem__ and set_data, "
     "field += -= *= /=, set_flattened and v[field] = values, add_fields, remove_fields incl. missing names and all-but-one, "
-    "copy and mutations of the copy, mutations of an independently created Vector, metadata writes, rejected wrong-width "
-    "assignments and duplicate field names) up to depth 3 (quick) or 4 (thorough, on one initial state per dimensionality "
+    "copy and mutations of the copy, mutations of an independently created Vector, metadata writes, kept slices s = v[idx] "
+    "spelled with implicit and explicit trailing axes followed by whole-cell replacements on either object) up to depth 3 (quick) or 4 (thorough, on one initial state per dimensionality "
     "plus from_data) from 22 initial states (from_shape for (2,), (3,), (2,2), (2,3), (2,2,2) x 1..3 fields, from_data with "
     "ragged rows incl. zero-row cells, and four Vectors with exactly one populated cell: shapes (1,), (1,1), (1,1,1), (2,2)) is executed on the real class; after every transition the main Vector, the copy "
     "and the independent Vector equal a pure-Python reference model cell by cell (exact), and in every new state every "
     "populated cell is 2-D with num_fields columns, fields are unique and 1:1 with units, v[f].flatten() and v.flatten() "
     "are the row-major concatenation over all cells and independent snapshots (no memory shared with a cell; kept across "
     "every in-place field operation and written back they restore the data), writing a flattened field back changes nothing, and slicing / get_data "
-    "return exactly the addressed cells for 1, 2 and 3 fixed dimensions. Model checking is the right level because the "
+    "return exactly the addressed cells for 1, 2 and 3 fixed dimensions. In every expanded state every operation the library "
+    "refuses (about 45: wrong-length / wrong-typed flattened input, unknown fields, invalid cell values, wrong index counts, "
+    "out-of-range indices, wrong array counts or an invalid array in multi-cell assignment, bad field names) is tried on one "
+    "live object: it must raise, leave copy / independent Vector and the main Vector's schema and metadata untouched and change "
+    "nothing outside its own footprint (inside it only old or requested values), and the history continues exactly from the "
+    "observed state. Model checking is the right level because the "
     "property quantifies over all operation histories of a small state machine."
 )
 NOTE = (
     "Trusted: the reference model in checks/C11.py (about 150 lines: nested lists + column operations written independently of "
     "vector.py), the event alphabet and the depth bound; float64 cell data only (integer cells, which numpy would truncate "
-    "under /=, are outside the alphabet); negative and out-of-range indices, zero-length slices, singleton lists in "
-    "assignments and partially-unset Vector-valued sources are outside the alphabet (the library may reject them); whether "
+    "under /=, are outside the alphabet); the property does not promise that a REFUSED operation is atomic, so refused "
+    "operations are judged by a footprint oracle (partial application inside the addressed cells / column is counted in the "
+    "evidence, not flagged); propagation of in-place field operations between a kept slice and its parent is not judged "
+    "(only whole-cell replacements must be local); singleton lists in assignments and removing every field are outside the alphabet; whether "
     "copy() carries metadata over is not pinned (empty or equal-by-value are both accepted, sharing is not). Seams: only the "
     "public API; cells are read through the public `data` property on the hot path (fallback v[int index], which is itself "
     "compared with the model for every cell in every expanded state); live states are cloned with pickle, cross-checked "
@@ -74,7 +81,9 @@ RULE = (
     "with the reference model; observers in every new state (index expressions over a 9-member per-axis alphabet for "
     "slicing and get_data: full Cartesian product incl. partial indices in the initial states and, in thorough, in all "
     "depth-1 states; a one-axis-at-a-time set of 10-30 expressions in deeper states; one mixed expression in states of "
-    "the last level; flatten, field flatten and the flatten/set_flattened round trip everywhere). thorough adds all "
+    "the last level; flatten, field flatten and the flatten/set_flattened round trip everywhere); in every expanded state "
+    "the battery of refused operations on one live object, then observers and one legal event from the observed state; a "
+    "kept slice is only taken when another event can follow and only whole-cell replacements are enabled while it is alive. thorough adds all "
     "length-8 histories that deviate from a varied default history in <= 2 positions (and from a repeated += in <= 2 / <= 1). A transition is non-trivial when it "
     "reaches a canonical state not seen before; distinct outcomes = distinct canonical states over all shards."
 )
@@ -355,6 +364,18 @@ def exprs_for(shape, tier):
 
 
 # ----------------------------------------------------------------------------- events
+# kept-slice spellings per number of fixed dimensions: (index expression, spelling). "implicit": fewer index entries
+# than dimensions (trailing axes taken whole implicitly); "explicit": every axis spelled out.
+SLICES = {
+    1: [(("s02",), "explicit"), (("lL0",), "explicit")],
+    2: [(("s02",), "implicit_trailing_axes"), (("s02", "all"), "explicit"), (("lL0",), "implicit_trailing_axes"), (("lL0", "all"), "explicit")],
+    3: [(("s02",), "implicit_trailing_axes"), (("s02", "all"), "implicit_trailing_axes"), (("s02", "all", "all"), "explicit"),
+        (("lL0",), "implicit_trailing_axes"), (("lL0", "all", "all"), "explicit"), (("L", "s02"), "implicit_trailing_axes"), (("L", "s02", "all"), "explicit")],
+}
+VID_SSET = 34  # + {first: 0, last: 1}
+VID_NEG = 36
+
+
 def events_for(shape):
     """The event alphabet for vectors with this fixed shape, simplest first. Events are flat tuples of str/int."""
     nd = len(shape)
@@ -366,21 +387,27 @@ def events_for(shape):
     ev += [("arith", "add", "f0"), ("arith", "sub", "flast"), ("arith", "mul", "flast"), ("arith", "div", "f0")]
     ev += [("setflat", "f0"), ("setfield", "flast")]
     ev += [("flat_rt", "mul", "f0"), ("flat_rt", "sub", "flast")]  # flatten, change the field in place, write the saved array back
-    ev += [("add", "g"), ("add", "hi"), ("add_existing",), ("add_dupinput",)]
+    ev += [("add", "g"), ("add", "hi")]
     ev += [("rm", k) for k in ("first", "last", "missing", "all_but_last", "all_but_first", "first_and_missing")]
     for a in range(nd):
         ev += [("asg_slice", a), ("asg_list", a)]
     for a in range(nd):
         ev += [("setd_slice", a), ("setd_list", a)]
     ev += [("asg_all",), ("asg_vec_self",), ("asg_vec_w",)]
-    ev += [("set_wide", "first"), ("set_1d", "last"), ("setd_wide", "first"), ("asg_slice_wide",)]
+    ev += [("set_neg",)]  # v[-1, 0, ..] = array: the library accepts a negative integer (Python list semantics), so it is an ordinary event
+    # kept slices: s = v[idx] stays alive in the state; the same selection spelled with implicit and explicit trailing axes
+    ev += [("slice", k) for k in range(len(SLICES[nd]))]
+    ev += [("s_set", "first"), ("s_set", "last"), ("s_setd", "first")]
     ev += [("meta", "a"), ("meta", "b")]
     ev += [("copy",), ("c_set",), ("c_arith",), ("c_add",), ("c_rm",), ("c_setflat",), ("c_meta",)]
     ev += [("w_set",), ("w_arith",), ("w_add",), ("w_meta",)]
     return ev
 
 
-TARGET = {"c_": "copy", "w_": "independent"}
+TARGET = {"c_": "copy", "w_": "independent", "s_": "slice"}
+# whole-cell replacements: the only events enabled (BFS) while a kept slice is alive; every other event would first
+# drop the slice and then behave exactly as in the state without it
+REPL = ("set", "setd", "set_neg", "asg_all", "s_set", "s_setd")
 
 
 def target_of(ev):
@@ -388,10 +415,18 @@ def target_of(ev):
 
 
 class State:
-    __slots__ = ("v", "c", "w", "mv", "mc", "mw", "parts")
+    """Live objects v (main), c (copy), w (independent), s (kept slice of v) + their models; sk = spelling index of s."""
+
+    __slots__ = ("v", "c", "w", "s", "mv", "mc", "mw", "ms", "sk", "parts")
 
     def triple(self):
-        return (("main", self.v, self.mv), ("copy", self.c, self.mc), ("independent", self.w, self.mw))
+        return (("main", self.v, self.mv), ("copy", self.c, self.mc), ("independent", self.w, self.mw), ("slice", self.s, self.ms))
+
+    def models(self):
+        return (self.mv, self.mc, self.mw, self.ms, self.sk)
+
+    def drop_slice(self):
+        self.s, self.ms, self.sk = None, None, None
 
 
 def cell_idx(c):
@@ -415,10 +450,18 @@ def vec_self_exprs(shape):
     return fix(dst), fix(src), dst_cells, src_cells
 
 
-def enabled(ev, S):
+def enabled(ev, S, bfs=True):
     """Enabledness is decided on the reference model only."""
     k = ev[0]
     m = S.mv
+    if k == "slice":
+        if S.ms is not None:
+            return False
+        return all(len(a) >= 1 for a in model_axes(SLICES[len(m.shape)][ev[1]][0], m.shape))
+    if k.startswith("s_"):
+        return S.ms is not None
+    if S.ms is not None and bfs and (k not in REPL or ev in (("set", "first", 0), ("set", "first", 3), ("set", "last", 0), ("set", "last", 1))):
+        return False  # with a kept slice alive: one replacement per cell and API is enough (the row count is immaterial)
     if k == "arith":
         return True  # with one field, "flast" is the first field
     if k == "setfield":
@@ -549,12 +592,6 @@ def apply_event(S, ev, T, F):
             else:
                 v.add_fields(["h", "i"])
                 m.add(["h", "i"])
-        elif k == "add_existing":
-            must_raise = True
-            v.add_fields([m.fields[nf - 1]])
-        elif k == "add_dupinput":
-            must_raise = True
-            v.add_fields(["k", "k"])
         elif k == "rm":
             kind = ev[1]
             if kind == "first":
@@ -604,17 +641,28 @@ def apply_event(S, ev, T, F):
             e = e[0] if len(e) == 1 else e
             v[e] = S.w[e]
             m.put(first, S.mw.get(first))
-        elif k in ("set_wide", "set_1d", "setd_wide", "asg_slice_wide"):
-            must_raise = True
-            if k == "set_wide":
-                v[cell_idx(cells[0])] = val(T, 2, 1, nf + 1)
-            elif k == "set_1d":
-                v[cell_idx(cells[-1])] = np.array(T[2, 0, :nf], copy=True)
-            elif k == "setd_wide":
-                v.set_data(val(T, 2, 3, nf + 1), *cells[0])
+        elif k == "set_neg":
+            c = (shape[0] - 1,) + (0,) * (len(shape) - 1)
+            vid, n = (VID_SET["last"], 1) if len(shape) == 1 else (VID_NEG, 2)  # 1-d: the very state ("set","last",1) reaches
+            v[cell_idx((-1,) + (0,) * (len(shape) - 1))] = val(T, vid, n, nf)
+            m.put(c, val(T, vid, n, nf))
+        elif k == "slice":
+            expr, _ = SLICES[len(shape)][ev[1]]
+            S.s = v[lib_index(expr, shape)]
+            axes = model_axes(expr, shape)
+            S.ms = Model(tuple(len(a) for a in axes), m.fields, m.units)
+            for out in S.ms.cells():
+                S.ms.put(out, m.get(tuple(axes[i][out[i]] for i in range(len(shape)))))
+            S.sk = ev[1]
+        elif k in ("s_set", "s_setd"):
+            ms = S.ms
+            c = ms.cells()[0] if ev[1] == "first" else ms.cells()[-1]
+            vid = VID_SSET + (0 if ev[1] == "first" else 1)
+            if k == "s_set":
+                S.s[cell_idx(c)] = val(T, vid, 2, ms.nf)
             else:
-                expr = multi_index(shape, 0, "s02")
-                v[lib_index(expr, shape)] = [val(T, 2, 1, nf + 1), val(T, 3, 1, nf + 1)]
+                S.s.set_data(val(T, vid, 2, ms.nf), *c)
+            ms.put(c, val(T, vid, 2, ms.nf))
         elif k == "meta":
             if ev[1] == "a":
                 v.metadata["a"] = 1
@@ -687,6 +735,255 @@ def describe(ev, shape):
     if k == "asg_vec_w":
         return "v[0:1, 0..] = w[0:1, 0..]"
     return f"{ev!r} on a {nd}-d Vector"
+
+
+# ----------------------------------------------------------------------------- refused operations
+def refusals(S, T, F):
+    """Every operation of the alphabet that the library refuses in this state: (name, call, footprint).
+
+    Established on /repo HEAD: each of them raises. The property does not promise that a refused operation is
+    atomic, so the oracle is a FOOTPRINT oracle (see judge_refusal): footprint = None (nothing may change),
+    ("cells", {cell: requested array or None}) or ("column", field index, {cell: requested column or None})."""
+    v, m, w = S.v, S.mv, S.w
+    shape, nf, nd = m.shape, m.nf, len(m.shape)
+    cells = m.cells()
+    first, last = cells[0], cells[-1]
+    n0 = shape[0]
+    rest = (0,) * (nd - 1)
+    ci = cell_idx
+    tot = m.total_rows()
+    pop = m.populated()
+    f0, fl_ = m.fields[0], m.fields[-1]
+    good = lambda vid, n=1: val(T, vid, n, nf)
+    wide = lambda vid, n=1: val(T, vid, n, nf + 1)
+    out = []
+
+    def column_request(values, fi):
+        """What set_flattened would write where, cell by cell (row-major cursor); a length-1 slice broadcasts."""
+        req, cur = {}, 0
+        for c, a in pop:
+            sl = values[cur : cur + a.shape[0]]
+            cur += a.shape[0]
+            try:
+                sl = np.asarray(sl, dtype=float)
+            except (TypeError, ValueError):
+                conv = []
+                for x in sl:
+                    try:
+                        conv.append(float(x))
+                    except (TypeError, ValueError):
+                        conv.append(np.nan)
+                sl = np.asarray(conv, dtype=float)
+            if sl.shape[0] == a.shape[0]:
+                req[c] = sl
+            elif sl.shape[0] == 1:
+                req[c] = np.full(a.shape[0], sl[0])
+            else:
+                req[c] = None
+        return req
+
+    def flat(name, values, fi=0, via="set_flattened"):
+        f = m.fields[fi]
+        vals = values
+        if via == "set_flattened":
+            out.append((name, lambda: v[f].set_flattened(vals), ("column", fi, column_request(np.asarray(values, dtype=object) if isinstance(values, list) else values, fi))))
+        else:
+            out.append((name, lambda: v.__setitem__(f, vals), ("column", fi, column_request(np.asarray(values, dtype=object) if isinstance(values, list) else values, fi))))
+
+    # --- wrong-length / wrong-shaped flattened input
+    flat("setflat_too_long", np.array(F[0, : tot + 1], copy=True))
+    if tot >= 1:
+        flat("setflat_too_short", np.array(F[0, : tot - 1], copy=True))
+        flat("setflat_len0", np.empty((0,)))
+        flat("setfield_too_short", [float(x) for x in F[1, : tot - 1]], nf - 1, via="setitem")
+        flat("setflat_strings", ["a"] * tot)
+        out.append(("setflat_2d", lambda: v[f0].set_flattened(np.zeros((tot, 1))), None))
+    if pop and pop[-1][1].shape[0] >= 2:  # too short, but the tail that is left for the last cell has length 1 and would broadcast
+        flat("setflat_tail_broadcasts", np.array(F[0, : tot - pop[-1][1].shape[0] + 1], copy=True))
+    if tot >= 2:
+        flat("setflat_strings_bad_tail", [repr(float(x)) for x in F[0, : tot - 1]] + ["z"])
+    flat("setfield_too_long", [float(x) for x in F[1, : tot + 1]], nf - 1, via="setitem")
+    out.append(("setflat_scalar", lambda: v[f0].set_flattened(3.0), None))
+    # --- unknown field names
+    out.append(("get_unknown_field", lambda: v["nope"], None))
+    out.append(("setfield_unknown_field", lambda: v.__setitem__("nope", np.array(F[0, :tot], copy=True)), None))
+    out.append(("arith_unknown_field", lambda: v["nope"].__iadd__(1), None))
+    # --- field arithmetic with an operand that cannot be applied to every cell
+    if any(a.shape[0] >= 0 for _, a in pop):
+        out.append(("arith_str_operand", lambda: v[f0].__iadd__("a"), ("column", 0, {c: None for c, _ in pop})))
+    if len(pop) >= 2 and pop[0][1].shape[0] >= 2 and any(a.shape[0] != pop[0][1].shape[0] for _, a in pop[1:]):
+        r1 = pop[0][1].shape[0]
+        operand = np.arange(1.0, r1 + 1.0)
+        out.append(("arith_array_operand", lambda: v[f0].__iadd__(operand), ("column", 0, {c: (a[:, 0] + operand if a.shape[0] == r1 else None) for c, a in pop})))
+    # --- single-cell values the cell invariant forbids, wrong number of indices, out-of-range indices
+    one = ("cells", {first: None})
+    out.append(("set_wide", lambda: v.__setitem__(ci(first), wide(2)), one))
+    out.append(("set_narrow", lambda: v.__setitem__(ci(first), val(T, 2, 1, nf - 1)), one))
+    out.append(("set_1d", lambda: v.__setitem__(ci(last), np.array(T[2, 0, :nf], copy=True)), ("cells", {last: None})))
+    out.append(("set_3d", lambda: v.__setitem__(ci(first), good(2).reshape(1, nf, 1)), one))
+    out.append(("set_list", lambda: v.__setitem__(ci(first), good(2).tolist()), one))
+    out.append(("set_none", lambda: v.__setitem__(ci(first), None), one))
+    out.append(("setd_wide", lambda: v.set_data(wide(2, 3), *first), one))
+    out.append(("setd_list", lambda: v.set_data(good(2).tolist(), *first), one))
+    out.append(("set_too_many_indices", lambda: v.__setitem__(first + (0,), good(2)), one))
+    if nd >= 2:
+        out.append(("set_too_few_indices", lambda: v.__setitem__(ci(first[:-1]), good(2)), None))
+        out.append(("setd_too_few_indices", lambda: v.set_data(good(2), *first[:-1]), None))
+    out.append(("set_oob", lambda: v.__setitem__(ci((n0,) + rest), good(2)), None))
+    out.append(("set_oob_last_axis", lambda: v.__setitem__(ci(first[:-1] + (shape[-1],)), good(2)), None))
+    out.append(("setd_oob", lambda: v.set_data(good(2), *((n0,) + rest)), None))
+    out.append(("setd_negative", lambda: v.set_data(good(2), *((-1,) + rest)), None))
+    out.append(("get_oob", lambda: v[ci((n0,) + rest)], None))
+    out.append(("getd_oob", lambda: v.get_data(*((n0,) + rest)), None))
+    out.append(("getd_list_oob", lambda: v.get_data(*(([0, n0],) + rest)), None))
+    out.append(("slice_list_oob", lambda: v[ci(([0, n0],) + rest)], None))
+    out.append(("slice_zero_length", lambda: v[ci((slice(n0, None),) + rest)], None))
+    # --- multi-cell assignment: wrong number of arrays, an invalid array among valid ones, out-of-range / negative list index
+    if n0 >= 2:
+        t0, t1 = (0,) + rest, (1,) + rest
+        sl = ci((slice(0, 2),) + rest)
+        args = (slice(0, 2),) + rest
+        a0, a1 = good(VID_SLICE, 1), good(VID_SLICE + 1, 3)
+        both = lambda x, y: ("cells", {t0: x, t1: y})
+        out.append(("asg_slice_count_short", lambda: v.__setitem__(sl, [good(VID_SLICE)]), both(a0, None)))
+        out.append(("asg_slice_count_long", lambda: v.__setitem__(sl, [good(VID_SLICE), good(VID_SLICE + 1, 3), good(2)]), both(a0, a1)))
+        out.append(("asg_slice_first_wide", lambda: v.__setitem__(sl, [wide(2), good(VID_SLICE + 1, 3)]), both(None, a1)))
+        out.append(("asg_slice_second_wide", lambda: v.__setitem__(sl, [good(VID_SLICE), wide(3)]), both(a0, None)))
+        out.append(("asg_slice_second_none", lambda: v.__setitem__(sl, [good(VID_SLICE), None]), both(a0, None)))
+        out.append(("asg_slice_not_a_list", lambda: v.__setitem__(sl, good(2, 2)), both(None, None)))
+        out.append(("asg_list_oob", lambda: v.__setitem__(ci(([0, n0],) + rest), [good(VID_SLICE), good(VID_SLICE + 1, 3)]), ("cells", {t0: a0})))
+        out.append(("asg_list_negative", lambda: v.__setitem__(ci(([0, -1],) + rest), [good(VID_SLICE), good(VID_SLICE + 1, 3)]), ("cells", {t0: a0, (n0 - 1,) + rest: a1})))
+        out.append(("setd_slice_count_short", lambda: v.set_data([good(VID_SLICE)], *args), both(a0, None)))
+        out.append(("setd_slice_count_long", lambda: v.set_data([good(VID_SLICE), good(VID_SLICE + 1, 3), good(2)], *args), both(a0, a1)))
+        out.append(("setd_slice_second_wide", lambda: v.set_data([good(VID_SLICE), wide(3)], *args), both(a0, None)))
+        out.append(("setd_list_oob", lambda: v.set_data([good(VID_SLICE), good(VID_SLICE + 1, 3)], *(([0, n0],) + rest)), ("cells", {t0: a0})))
+        dst, src, dst_cells, src_cells = vec_self_exprs(shape)
+        if any(m.get(c) is None for c in src_cells):
+            out.append(("asg_vec_unset_source", lambda: v.__setitem__(dst, v[src]), ("cells", {d: m.get(c) for d, c in zip(dst_cells, src_cells)})))
+    if S.mw.get(first) is not None and S.mw.nf != nf:
+        e = ci((slice(0, 1),) + rest)
+        out.append(("asg_vec_wrong_width_source", lambda: v.__setitem__(e, w[e]), one))
+    # --- field names
+    out.append(("add_existing", lambda: v.add_fields([fl_]), None))
+    out.append(("add_new_and_existing", lambda: v.add_fields(["q", f0]), None))
+    out.append(("add_duplicate_input", lambda: v.add_fields(["k", "k"]), None))
+    return out
+
+
+def judge_refusal(name, footprint, S):
+    """FOOTPRINT oracle for the main Vector after a refused operation: shape / fields / units / metadata unchanged;
+    outside the footprint nothing changed; inside it every cell (every column entry) is either its old value or the
+    value the operation requested for it — no third value, no row-count change. Returns (problem, partially_applied);
+    on success the reference model is set to the observed contents, so that later events are still compared exactly."""
+    v, m = S.v, S.mv
+    shape, fields, units, cells, meta = read_one(v, m)
+    if view_bytes(shape, fields, units, cells, meta) == model_bytes(m):
+        return None, False
+    if shape != m.shape or fields != m.fields or units != m.units or dict(meta) != m.meta:
+        return f"shape / fields / units / metadata changed: {shape} {fields} {units} {dict(meta)}, before {m.shape} {m.fields} {m.units} {m.meta}", False
+    kind = footprint[0] if footprint else None
+    new = {}
+    for c, o in zip(m.cells(), cells):
+        old = m.get(c)
+        if same_cell(o, old) and (o is None or o.dtype == old.dtype):
+            continue
+        if kind == "cells" and c in footprint[1]:
+            reqd = footprint[1][c]
+            if reqd is not None and same_cell(o, reqd) and o.dtype == np.float64:
+                new[c] = np.array(o, copy=True)
+                continue
+            return f"cell {c} = {show(o)} is neither its old value {show(old)} nor the requested {show(reqd)}", False
+        if kind == "column" and old is not None and isinstance(o, np.ndarray) and o.shape == old.shape and o.dtype == old.dtype:
+            fi = footprint[1]
+            others = [k for k in range(old.shape[1]) if k != fi]
+            reqd = footprint[2].get(c)
+            if np.array_equal(o[:, others], old[:, others]) and all(o[r, fi] == old[r, fi] or (reqd is not None and o[r, fi] == reqd[r]) for r in range(old.shape[0])):
+                new[c] = np.array(o, copy=True)
+                continue
+            return f"cell {c} = {show(o)}: column {fi} holds a value that is neither the old one {show(old)} nor the requested one {show(reqd)}, or another column / the row count changed", False
+        return f"cell {c} outside the operation's footprint changed: {show(o)}, before {show(old)}", False
+    for c, a in new.items():
+        m.put(c, a)
+    return None, True
+
+
+def refusal_battery(reload, T, F, hist, spec, t, counts, share, only=None, before=(), case_extra=None):
+    """All refused operations, one after the other on ONE live object (the history continues after each exception).
+
+    Fast path: the main Vector is judged after every refusal (footprint oracle), the other objects (copy, independent,
+    kept slice: must be bit-identical) once at the end; if that final comparison fails the battery is repeated with a
+    whole-state comparison after every refusal to attribute the failure. Returns the live state after the battery
+    (model = observed contents) or None when something failed."""
+    case0 = {"init": list(spec), "history": [list(e) for e in hist]}
+    if case_extra:
+        case0.update(case_extra)
+    where = f"init {spec!r} after {[tuple(e) for e in hist]!r}"
+
+    def run(S, every):
+        # in-place writes reach a kept slice through the arrays it shares with its parent (by design, not judged),
+        # and a refused field operation may be partly applied: the battery runs without the kept slice
+        S.drop_slice()
+        done = list(before)
+        failed = False
+        tried = set()
+        todo = refusals(S, T, F)
+        while todo:
+            name, call, footprint = todo.pop(0)
+            if name in tried or (only is not None and name not in only):
+                continue
+            tried.add(name)
+            problem = None
+            rel = "refused_operation_stays_in_footprint"
+            try:
+                with contextlib.redirect_stdout(io.StringIO()):
+                    call()
+                problem, rel = "was ACCEPTED (on /repo HEAD it raises)", "refused_operation_is_refused"
+            except (Broken, AssertionError):
+                raise
+            except Exception:
+                pass
+            counts["transitions"] += 1
+            counts["ev_refused"] += 1
+            t.n += 1
+            partial = False
+            if problem is None:
+                try:
+                    problem, partial = judge_refusal(name, footprint, S)
+                except Exception as e:
+                    problem = f"the main Vector is unreadable afterwards: {type(e).__name__}: {str(e)[:100]}"
+            if partial:
+                counts["refused_but_partially_applied_" + name] += 1
+                todo = refusals(S, T, F)  # requests and enabledness are computed from the model, which just moved
+            if problem is None and every:
+                fl = []
+                compare(S, None, fl)
+                if fl:
+                    rel = "refused_operation_leaves_other_objects_untouched"
+                    problem = "; ".join(msg for _, msg, _ in fl[:2])
+            if problem is not None:
+                cls = {"relation": rel, "event": "refused", "refusal": name, "ndim": len(S.mv.shape), "aliasing": share}
+                t.fail(cls, dict(case0, refusal=name, refusals_before=list(done)), f"{where}: refused operation {name}: {problem}")
+                failed = True
+                S = reload()  # carry on with the remaining refusals from the untouched state
+                S.drop_slice()
+                done = list(before)
+                todo = refusals(S, T, F)
+                continue
+            done.append(name)
+        return S, failed, done
+
+    S, failed, done = run(reload(), False)
+    fl = []
+    parts, sig, sh = compare(S, None, fl)
+    if fl and not failed:
+        S, failed, done = run(reload(), True)
+        if not failed:  # cannot be attributed to one refusal: report the battery as a whole
+            t.fail({"relation": "refused_operation_leaves_other_objects_untouched", "event": "refused", "refusal": "battery", "ndim": len(S.mv.shape), "aliasing": share}, dict(case0, refusals_before=list(done)), f"{where}: after the refused operations {done}: {fl[0][1]}")
+            failed = True
+    if failed or fl:
+        return None, done
+    S.parts = parts
+    return S, done
 
 
 # ----------------------------------------------------------------------------- reading the live objects
@@ -823,15 +1120,19 @@ def compare(S, ev, fails):
                 d = ("state_equals_model", f"{who}: canonical bytes differ from the model")
             rel, msg = d
             if tgt is not None and who != tgt:
-                rel = "mutation_not_visible_in_other_vector"
-                msg = f"an operation on the {tgt} Vector changed the {who} Vector — {msg}"
+                if {tgt, who} == {"main", "slice"}:
+                    rel = "whole_cell_replacement_is_local"
+                    msg = f"replacing a whole cell of the {tgt} Vector changed what the {'kept slice' if who == 'slice' else 'parent (main) Vector'} holds — {msg}"
+                else:
+                    rel = "mutation_not_visible_in_other_vector"
+                    msg = f"an operation on the {tgt} Vector changed the {who} Vector — {msg}"
             fails.append((rel, msg, who))
     return parts, tuple(sig), "+".join(sorted(flags)) or "none"
 
 
-def state_key(parts, sig):
+def state_key(parts, sig, sk=None):
     h = hashlib.blake2b(b"#".join(parts), digest_size=8)
-    h.update(repr(sig).encode())
+    h.update(repr((sig, sk)).encode())  # the spelling of a kept slice is part of the state: fine canonicalisation
     return int.from_bytes(h.digest(), "little")
 
 
@@ -852,11 +1153,14 @@ def observe(S, tier, fails, counts):
     v, m = S.v, S.mv
     Vector = V()
     shape, nd = m.shape, len(m.shape)
-    # flatten / field flatten = row-major concatenation
+    # flatten / field flatten = row-major concatenation, and what they return is a snapshot, not a window onto the
+    # Vector's storage (the same returned arrays serve both checks)
+    kept = []
     try:
         got = v.flatten()
         exp = m.stacked()
         counts["obs_flatten"] += 1
+        kept.append(("v.flatten()", got, exp))
         if not (isinstance(got, np.ndarray) and got.shape == exp.shape and np.array_equal(got, exp)):
             fails.append(("flatten_is_row_major_concatenation", f"v.flatten() = {show(got)}, model says {exp.tolist()}", {"observer": "flatten"}))
     except Exception as e:
@@ -866,18 +1170,19 @@ def observe(S, tier, fails, counts):
             got = v[f].flatten()
             exp = m.column(fi)
             counts["obs_field_flatten"] += 1
+            kept.append((f"v[{f!r}].flatten()", got, exp))
             if not (isinstance(got, np.ndarray) and got.shape == exp.shape and np.array_equal(got, exp)):
                 fails.append(("field_flatten_is_row_major_concatenation", f"v[{f!r}].flatten() = {show(got)}, model says {exp.tolist()}", {"observer": "field_flatten"}))
         except Exception as e:
             fails.append(("field_flatten_is_row_major_concatenation", f"v[{f!r}].flatten() raised {type(e).__name__}: {str(e)[:120]}", {"observer": "field_flatten"}))
-    # what flatten() returns is a snapshot, not a window onto the Vector's storage
-    try:
-        p = check_kept(take_flat(v, m), S)
-        counts["obs_flatten_independent"] += 1
-        if p:
-            fails.append((p[0], p[1], {"observer": "flatten_independent", "populated_cells": len(m.populated())}))
-    except Exception:
-        pass  # a raising flatten is reported above
+    if not fails:
+        try:
+            p = check_kept(kept, S)
+            counts["obs_flatten_independent"] += 1
+            if p:
+                fails.append((p[0], p[1], {"observer": "flatten_independent", "populated_cells": len(m.populated())}))
+        except Exception:
+            pass
     # every cell through v[int index] (the hot-path comparison reads the cells through the `data` property)
     if tier != "mini":
         for c in m.cells():
@@ -995,6 +1300,7 @@ def build_init(spec, seed):
     Vector.from_shape((1,), num_fields=1).metadata.clear()
     S = State()
     S.c, S.mc = None, None
+    S.s, S.ms, S.sk = None, None, None
     if kind == "one":
         shape = tuple(a)
         cell = (0, 1) if shape == (2, 2) else (0,) * len(shape)
@@ -1047,34 +1353,46 @@ def build_init(spec, seed):
 
 
 def dump(S):
-    return pickle.dumps((S.v, S.c, S.w), protocol=pickle.HIGHEST_PROTOCOL)
+    """One pickle of all live objects: objects shared between them (cell arrays, row lists) stay shared after loading."""
+    return pickle.dumps((S.v, S.c, S.w, S.s), protocol=pickle.HIGHEST_PROTOCOL)
 
 
-def load(blob, mv, mc, mw, target=None):
-    """Live triple from a pickle + models. A model object is only ever mutated by apply_event, and only the model of
-    the object the event addresses, so only that one needs a private clone (target=None: clone all three)."""
+def load(blob, M, target=None):
+    """Live objects from a pickle + models M = State.models(). A model object is only ever mutated by apply_event, and
+    only the model of the object the event addresses, so only that one needs a private clone (target=None: all)."""
+    mv, mc, mw, ms, sk = M
     S = State()
-    S.v, S.c, S.w = pickle.loads(blob)
+    S.v, S.c, S.w, S.s = pickle.loads(blob)
     S.mv = mv.clone() if target in (None, "main") else mv
     S.mc = mc.clone() if (mc is not None and target in (None, "copy")) else mc
     S.mw = mw.clone() if target in (None, "independent") else mw
+    S.ms = ms.clone() if (ms is not None and target in (None, "slice")) else ms
+    S.sk = sk
     return S
+
+
+def frozen_models(S):
+    return (S.mv.clone(), S.mc.clone() if S.mc is not None else None, S.mw.clone(), S.ms.clone() if S.ms is not None else None, S.sk)
 
 
 def mk_cls(rel, ev, S_shape, share, extra=None):
     cls = {"relation": rel, "event": ev[0] if ev else "init", "ndim": len(S_shape), "aliasing": share}
     if ev and ev[0] in ("asg_slice", "asg_list", "setd_slice", "setd_list"):
         cls["first_axis"] = ev[1] == 0
+    if rel == "whole_cell_replacement_is_local":
+        cls.pop("aliasing", None)  # the oracle is deliberately independent of whether slice and parent share arrays
     if extra:
         cls.update(extra)
     return cls
 
 
-def step(S, ev, seed, hist, spec, t, counts, obs_tier, pre_share):
+def step(S, ev, seed, hist, spec, t, counts, obs_tier, pre_share, case_extra=None):
     """One transition on a live state (in place). Returns (ok, key, sharing). Failures are recorded on t."""
     T, F = tables(seed)
     shape = S.mv.shape
     case = {"init": list(spec), "history": [list(e) for e in hist]}
+    if case_extra:
+        case.update(case_extra)
     where = f"init {spec!r} after {[tuple(e) for e in hist]!r}"
     kept = None
     if ev[0] in KEEP_EVENTS:
@@ -1092,7 +1410,7 @@ def step(S, ev, seed, hist, spec, t, counts, obs_tier, pre_share):
     # the byte cache of a model may only ever serve the objects the event did NOT address
     tgt = target_of(ev)
     for who, vec, m in S.triple():
-        if m is not None and (who == tgt or ev[0] == "copy"):
+        if m is not None and (who == tgt or ev[0] in ("copy", "slice")):
             m.touch()
     ok = True
     if imm is not None:
@@ -1101,7 +1419,11 @@ def step(S, ev, seed, hist, spec, t, counts, obs_tier, pre_share):
     fl = []
     parts, sig, share = compare(S, ev, fl)
     for rel, msg, who in fl:
-        t.fail(mk_cls(rel, ev, shape, pre_share, {"object": who}), case, f"{where}: {msg}")
+        extra = {"object": who}
+        if rel == "whole_cell_replacement_is_local" and S.sk is not None:
+            extra["spelling"] = SLICES[len(shape)][S.sk][1]
+            msg += f" [slice taken as v[{lib_index(SLICES[len(shape)][S.sk][0], shape)!r}]]"
+        t.fail(mk_cls(rel, ev, shape, pre_share, extra), case, f"{where}: {msg}")
         ok = False
     for who, vec, m in S.triple():
         if m is not None:
@@ -1109,7 +1431,7 @@ def step(S, ev, seed, hist, spec, t, counts, obs_tier, pre_share):
     if not ok:
         return False, None, None
     S.parts = parts
-    return True, state_key(parts, sig), share
+    return True, state_key(parts, sig, S.sk), share
 
 
 def run_observers(S, tier, hist, spec, t, counts, share):
@@ -1142,7 +1464,7 @@ def run_history(spec, hist, seed, t, counts, observers="reduced", stop_on_fail=T
     fl = []
     parts, sig, share = compare(S, None, fl)
     S.parts = parts
-    key = state_key(parts, sig)
+    key = state_key(parts, sig, S.sk)
     ok = True
     for rel, msg, who in fl:
         t.fail(mk_cls(rel, None, S.mv.shape, share, {"object": who}), {"init": list(spec), "history": []}, f"init {spec!r}: {msg}")
@@ -1172,22 +1494,51 @@ def shape_of(spec):
     return tuple(spec[1]) if spec[0] in ("shape", "one") else (len(spec[1]),)
 
 
-def expand_one(blob, mv, mc, mw, share, hist, EV, seed, spec, t, counts):
+FOLLOW = [("arith", "add", "f0"), ("set", "last", 1), ("setflat", "f0"), ("arith", "mul", "flast"), ("asg_all",), ("setfield", "flast")]
+
+
+def after_refusals(blob, M, share, hist, EV, seed, spec, t, counts):
+    """The refused operations of this state on one live object, then the history goes on from there: flatten / field
+    flatten / round trip observers and one legal event (chosen round-robin by the history) compared with the model."""
+    T, F = tables(seed)
+    S, done = refusal_battery(lambda: load(blob, M, None), T, F, hist, spec, t, counts, share)
+    if S is None:
+        return
+    extra = {"refusals_before": list(done)}
+    fl = []
+    observe(S, "mini", fl, counts)
+    roundtrip(S, fl, counts, whole=False)
+    for rel, msg, ex in fl:
+        cls = mk_cls(rel, None, S.mv.shape, share, ex)
+        cls["event"] = "observe_after_refused"
+        t.fail(cls, dict({"init": list(spec), "history": [list(e) for e in hist]}, **extra), f"init {spec!r} after {hist!r} and the refused operations {done}: {msg}")
+    if fl:
+        return
+    ev = FOLLOW[sum(EV.index(e) for e in hist) % len(FOLLOW)]
+    if enabled(ev, S):
+        step(S, ev, seed, hist + [ev], spec, t, counts, None, share, dict(extra, follow_after_refusals=True))
+        counts["transitions"] += 1
+        counts["ev_follow_after_refused"] += 1
+        t.n += 1
+
+
+def expand_one(blob, M, share, hist, EV, seed, spec, t, counts, last=False):
     """Every enabled event from one live state (given as a pickle + models). Yields (ei, S2, key, sharing) for the
     transitions whose result agrees with the model; failures are recorded on t and not yielded."""
     probe = State()
-    probe.mv, probe.mc, probe.mw = mv, mc, mw
+    probe.mv, probe.mc, probe.mw, probe.ms, probe.sk = M
     for ei, ev in enumerate(EV):
-        if not enabled(ev, probe):  # decided on the models alone
-            counts["not_enabled"] += 1
+        if not enabled(ev, probe) or (last and ev[0] == "slice"):  # decided on the models alone; a kept slice
+            counts["not_enabled"] += 1  # only matters if a later event can follow, so none is taken at the last level
             continue
-        S2 = load(blob, mv, mc, mw, target_of(ev))
+        S2 = load(blob, M, target_of(ev))
         good, k2, sh2 = step(S2, ev, seed, hist + [ev], spec, t, counts, None, share)
         counts["transitions"] += 1
         counts["ev_" + ev[0]] += 1
         t.n += 1
         if good:
             yield ei, S2, k2, sh2
+    after_refusals(blob, M, share, hist, EV, seed, spec, t, counts)
 
 
 def shard_a(item, seed=0, full_depth1=True):
@@ -1212,7 +1563,7 @@ def shard_a(item, seed=0, full_depth1=True):
     S, key, share, ok = run_history(spec, hist0, seed, Tally(), Tally().extra)  # fresh objects after the observers
     new = []
     local = set()
-    for ei, S2, k2, sh2 in expand_one(dump(S), S.mv, S.mc, S.mw, share, hist0, EV, seed, spec, t, counts):
+    for ei, S2, k2, sh2 in expand_one(dump(S), S.models(), share, hist0, EV, seed, spec, t, counts):
         if first < 0:
             states.add(k2)
         elif k2 not in known and k2 not in local:
@@ -1241,26 +1592,26 @@ def shard_b(item, depth=3, seed=0):
     S, key, share, ok = run_history(spec, hist0, seed, Tally(), Tally().extra)
     if not ok:
         raise Broken(f"phase B cannot rebuild the depth-1 state {hist0!r} of {spec!r} that phase A accepted")
-    blob1, m1 = dump(S), (S.mv, S.mc, S.mw)
+    blob1, m1 = dump(S), S.models()
     frontier = []
     for k2, ei in owned:
         ev = EV[ei]
-        S2 = load(blob1, *m1)
+        S2 = load(blob1, m1)
         h2 = hist0 + [ev]
         good, k, sh2 = step(S2, ev, seed, h2, spec, Tally(), Tally().extra, None, share)  # counted and judged in phase A
         if not good or k != k2:
             raise Broken(f"replay of {h2!r} from {spec!r} does not reproduce the state seen in phase A")
         states.add(k2)
         blob2 = dump(S2)
-        m2 = (S2.mv.clone(), S2.mc.clone() if S2.mc is not None else None, S2.mw.clone())
+        m2 = frozen_models(S2)
         counts["new_states"] += 1
         if run_observers(S2, "reduced" if depth > 2 else "mini", h2, spec, t, counts, sh2) and depth > 2:
-            frontier.append((h2, blob2, m2[0], m2[1], m2[2], sh2))
+            frontier.append((h2, blob2, m2, sh2))
     for level in range(2, depth):
         nxt = []
         last = level + 1 == depth
-        for hist, blob, mv, mc, mw, share in frontier:
-            for ei, S2, k2, sh2 in expand_one(blob, mv, mc, mw, share, hist, EV, seed, spec, t, counts):
+        for hist, blob, M, share in frontier:
+            for ei, S2, k2, sh2 in expand_one(blob, M, share, hist, EV, seed, spec, t, counts, last=last):
                 if k2 in seen or k2 in states:
                     continue
                 states.add(k2)
@@ -1269,12 +1620,12 @@ def shard_b(item, depth=3, seed=0):
                 counts["new_states"] += 1
                 if not last:
                     blob2 = dump(S2)
-                    m2 = (S2.mv.clone(), S2.mc.clone() if S2.mc is not None else None, S2.mw.clone())
+                    m2 = frozen_models(S2)
                 good_obs = run_observers(S2, "mini" if last else "reduced", h2, spec, t, counts, sh2)
                 if len(h2) >= 3 and len(t.samples) < 2 and sh2 == "none":
                     t.sample({"init": list(spec), "history": [list(e) for e in h2], "fields": list(S2.mv.fields), "units": list(S2.mv.units), "rows_per_cell": [None if a is None else int(a.shape[0]) for a in (S2.mv.get(c) for c in S2.mv.cells())]}, cap=2)
                 if not last and good_obs:
-                    nxt.append((h2, blob2, m2[0], m2[1], m2[2], sh2))
+                    nxt.append((h2, blob2, m2, sh2))
         frontier = nxt
     t.outcomes.add(packed(states))
     counts["seam_data_fallback"] += SEAM["data_fallback"]
@@ -1293,57 +1644,99 @@ def default_histories(spec):
     return [(varied, 2), (rep, 2 if spec[0] == "data" else 1)]
 
 
+BATTERY_AFTER = 4  # deviation histories: the refused operations are tried after the 4th executed event
+
+
+def dev_enabled(ev, S):
+    """Deviation histories: an event that is not a whole-cell replacement first drops a kept slice, then runs."""
+    if S.ms is not None and ev[0] not in REPL and ev[0] != "slice":
+        S.drop_slice()
+    return enabled(ev, S, bfs=False)
+
+
+def rebuild_dev(spec, done, seed):
+    """Fresh objects brought to the state after the executed events `done` (deviation semantics, nothing recorded)."""
+    S = build_init(spec, seed)
+    for i, ev in enumerate(done):
+        dev_enabled(ev, S)
+        step(S, ev, seed, done[: i + 1], spec, Tally(), Tally().extra, None, "none")
+    return S
+
+
+def run_dev_history(spec, hist, seed, t, counts, states=None, battery=True):
+    """One length-8 history on ONE live object: every event compared with the model; the arrays kept from flatten()
+    in the first state with data re-checked after every later event; after the 4th executed event all refused
+    operations of that state (footprint oracle; only in histories with <= 1 deviation from their default, battery=True),
+    the history then goes on from the observed post-exception state."""
+    T, F = tables(seed)
+    shape = shape_of(spec)
+    S = build_init(spec, seed)
+    share = "none"
+    done = []
+    ok = True
+    kept, kept_at = None, None
+    extra = {"dev": True, "battery": bool(battery)}
+    for ev in hist:
+        ev = tuple(ev)
+        if not dev_enabled(ev, S):
+            counts["dev_disabled_skipped"] += 1
+            continue
+        done.append(ev)
+        good, k2, sh2 = step(S, ev, seed, list(done), spec, t, counts, None, share, extra)
+        counts["transitions"] += 1
+        counts["ev_" + ev[0]] += 1
+        t.n += 1
+        if not good:
+            ok = False
+            break
+        share = sh2
+        if states is not None:
+            states.add(k2)
+        # arrays kept from the first state with data are re-checked after EVERY later event of the history
+        # (one live object all the way: sharing with the Vector's storage cannot be lost to cloning)
+        try:
+            if kept is None:
+                if S.mv.total_rows() > 0:
+                    kept = take_flat(S.v, S.mv)
+            else:
+                p = check_kept(kept, S)
+                counts["kept_flatten_checks"] += 1
+                if p:
+                    t.fail(mk_cls(p[0], ev, shape, share, {"kept_across_history": True}), {"init": list(spec), "history": [list(e) for e in done], "kept_after": kept_at, "dev": True, "battery": bool(battery)}, f"init {spec!r} after {done!r}, arrays kept after step {kept_at}: {p[1]}")
+                    ok = False
+                    break
+            if kept is not None and kept_at is None:
+                kept_at = len(done)
+        except Exception:
+            pass
+        if battery and len(done) == BATTERY_AFTER:
+            live = [S]
+            prefix = list(done)
+            S2, names = refusal_battery(lambda: live.pop() if live else rebuild_dev(spec, prefix, seed), T, F, prefix, spec, t, counts, share, case_extra={"dev": True, "battery": True})
+            counts["dev_batteries"] += 1
+            if S2 is None:
+                ok = False
+                break
+            if S2 is not S:
+                kept = None  # objects were rebuilt: arrays kept from the old ones say nothing about the new ones
+            S = S2
+    if ok:
+        counts["reached_depth_%d" % len(done)] += 1
+        run_observers(S, "mini", done, spec, t, counts, share)
+    return done, ok
+
+
 def dev_chunk(item, seed=0):
-    """item = (init index, default index, list of histories as tuples of event indices)."""
+    """item = (init index, default index, list of (number of deviations, history as a tuple of event indices))."""
     ii, di, hists = item
     spec = INITS[ii]
-    shape = shape_of(spec)
-    EV = events_for(shape)
+    EV = events_for(shape_of(spec))
     t = Tally()
     counts = t.extra
     states = set()
-    for hx in hists:
-        hist = [EV[i] for i in hx]
-        S = build_init(spec, seed)
-        share = "none"
-        done = []
-        ok = True
-        kept, kept_at = None, None
-        for ev in hist:
-            if not enabled(ev, S):
-                counts["dev_disabled_skipped"] += 1
-                continue
-            done.append(ev)
-            good, k2, sh2 = step(S, ev, seed, list(done), spec, t, counts, None, share)
-            counts["transitions"] += 1
-            counts["ev_" + ev[0]] += 1
-            t.n += 1
-            if not good:
-                ok = False
-                break
-            share = sh2
-            states.add(k2)
-            # arrays kept from the first state with data are re-checked after EVERY later event of the history
-            # (one live object all the way: sharing with the Vector's storage cannot be lost to cloning)
-            try:
-                if kept is None:
-                    if S.mv.total_rows() > 0:
-                        kept = take_flat(S.v, S.mv)
-                else:
-                    p = check_kept(kept, S)
-                    counts["kept_flatten_checks"] += 1
-                    if p:
-                        t.fail(mk_cls(p[0], ev, shape, share, {"kept_across_history": True}), {"init": list(spec), "history": [list(e) for e in done], "kept_after": kept_at}, f"init {spec!r} after {done!r}, arrays kept after step {kept_at}: {p[1]}")
-                        ok = False
-                        break
-                if kept is not None and kept_at is None:
-                    kept_at = len(done)
-            except Exception:
-                pass
+    for ndev, hx in hists:
+        run_dev_history(spec, [EV[i] for i in hx], seed, t, counts, states, battery=ndev <= 1)
         counts["dev_histories"] += 1
-        if ok:
-            counts["reached_depth_%d" % len(done)] += 1
-            run_observers(S, "mini", done, spec, t, counts, share)
     t.outcomes.add(packed(states))
     counts["seam_data_fallback"] += SEAM["data_fallback"]
     SEAM["data_fallback"] = 0
@@ -1356,22 +1749,24 @@ def run(ctx):
     ctx.assume(
         "cell data are float64; every array handed to the library is a fresh object (the library stores references to caller arrays by design)",
         "all values are distinct dyadic rationals and the arithmetic operands are 2, 0.5, 3, 2, so every reachable value is exact in float64 and the comparison is exact",
-        "a slice of a Vector is a view by design (name '[view]'): sharing between a sliced Vector and its source is not a violation and sliced Vectors are never mutated",
+        "a slice of a Vector may share its cell arrays with its source (name '[view]'): in-place field operations are not judged across a kept slice and its parent; replacing a WHOLE cell on one of them must not change what the other holds, however the slice was spelled",
+        "a refused operation (one that raises) need not be atomic: it must stay inside its footprint (addressed cells / field column: old or requested values only), leave schema, metadata, copy and independent Vector untouched, and later events are compared against the observed post-exception state",
         "whether copy() carries metadata over is not pinned; only that the two dicts are independent",
         "a mixed index such as v[0:2, 1] keeps the integer axis with length 1; a partial index is padded with full slices",
-        "outside the alphabet (library may reject): negative / out-of-range indices, zero-length selections, singleton lists in assignments, Vector-valued sources with unset cells, removing every field, integer-typed cells",
+        "a negative integer index in v[-1, ..] = array is accepted by the library (Python list semantics) and modelled as such; set_data / get_data refuse it",
+        "outside the alphabet: singleton lists in assignments, removing every field, integer-typed cells",
     )
 
     def once():
         t = Tally()
         spec = INITS[INITS.index(("shape", (2, 3), 2))]
-        hist = [("set", "first", 3), ("asg_slice", 1), ("add", "g"), ("copy",), ("c_arith",), ("arith", "div", "flast"), ("rm", "first"), ("setflat", "f0")]
+        hist = [("set", "first", 3), ("asg_slice", 1), ("add", "g"), ("copy",), ("c_arith",), ("arith", "div", "flast"), ("rm", "first"), ("setflat", "f0"), ("slice", 0), ("s_set", "first"), ("set", "last", 1)]
         S, key, share, ok = run_history(spec, hist, seed, t, t.extra)
         # the pickled path must give the same canonical state as the replay from scratch
-        S2 = load(dump(S), S.mv, S.mc, S.mw)
+        S2 = load(dump(S), S.models())
         fl = []
         parts, sig, _ = compare(S2, None, fl)
-        return (key, state_key(parts, sig), share, ok, [f["msg"] for f in t.fails], len(fl))
+        return (key, state_key(parts, sig, S2.sk), share, ok, [f["msg"] for f in t.fails], len(fl))
 
     ctx.selftest(once)
     r = once()
@@ -1445,7 +1840,7 @@ def run(ctx):
             index = {e: i for i, e in enumerate(EV)}
             for di, (default, b) in enumerate(default_histories(spec)):
                 dflt = [index[e] for e in default]
-                hs = [tuple(h) for _, h in deviation_histories(dflt, list(range(len(EV))), b)]
+                hs = [(k, tuple(h)) for k, h in deviation_histories(dflt, list(range(len(EV))), b)]
                 nh += len(hs)
                 for i in range(0, len(hs), 400):
                     dev_items.append((ii, di, hs[i : i + 400]))
@@ -1493,7 +1888,7 @@ def run(ctx):
     never = [k for k in kinds if ex.get("ev_" + k, 0) == 0]
     if never:
         raise Broken(f"events never enabled anywhere: {never}")
-    for k in ("obs_slice", "obs_get_data", "obs_flatten", "obs_field_flatten", "obs_roundtrip"):
+    for k in ("obs_slice", "obs_get_data", "obs_flatten", "obs_field_flatten", "obs_roundtrip", "ev_refused", "ev_follow_after_refused", "kept_flatten_checks"):
         if ex.get(k, 0) == 0:
             raise Broken(f"observer {k} never ran")
 
@@ -1503,27 +1898,18 @@ def replay(ctx, case):
     spec = (spec[0], tuple(spec[1]), spec[2])
     hist = [tuple(e) for e in case["history"]]
     t = ctx.tally
-    if case.get("kept_after") is not None:
-        # arrays kept from flatten() after step `kept_after`, re-checked after every later event on ONE live object
-        S = build_init(spec, ctx.seed)
-        share, kept = "none", None
-        for i, ev in enumerate(hist):
-            good, k2, sh2 = step(S, ev, ctx.seed, hist[: i + 1], spec, t, t.extra, None, share)
-            if not good:
-                break
-            share = sh2
-            if kept is None and i + 1 >= case["kept_after"] and S.mv.total_rows() > 0:
-                kept = take_flat(S.v, S.mv)
-            elif kept is not None:
-                p = check_kept(kept, S)
-                if p:
-                    ctx.fail(mk_cls(p[0], ev, S.mv.shape, share, {"kept_across_history": True}), case, f"init {spec!r} after {hist[: i + 1]!r}, arrays kept after step {case['kept_after']}: {p[1]}")
-                    break
-        print(f"  init {spec!r}, history {hist!r}, flatten() results kept after step {case['kept_after']}")
+    if case.get("dev"):
+        # a deviation-bounded history: one live object, kept flatten() arrays, refused operations after the 4th event
+        done, ok = run_dev_history(spec, hist, ctx.seed, t, t.extra, battery=case.get("battery", True))
+        print(f"  init {spec!r}, deviation-history semantics, executed {done!r}")
         return
     S, key, share, ok = run_history(spec, hist, ctx.seed, t, t.extra, stop_on_fail=True)
     print(f"  init {spec!r}, history {hist!r}")
-    if ok:
+    if ok and ("refusal" in case or "refusals_before" in case):
+        # the refused operations of that state on one live object, then the observers and one legal event
+        print(f"  then the refused operations of that state" + (f" (recorded: {case['refusal']})" if "refusal" in case else ""))
+        after_refusals(dump(S), S.models(), share, hist, events_for(shape_of(spec)), ctx.seed, spec, t, t.extra)
+    elif ok:
         run_observers(S, case.get("observers") or "full", hist, spec, t, t.extra, share)
     for who, vec, m in S.triple():
         if vec is None:
